@@ -1938,17 +1938,24 @@ impl<'a, 'b, W: Write> SerializeSeq for SeqSer<'a, 'b, W> {
         } else {
             // If we are the value of a mapping key, we deferred the newline until we knew the
             // sequence is non-empty. Insert it now before emitting the first dash.
+            let mut starts_own_line = false;
             if self.first && self.ser.pending_space_after_colon {
                 self.ser.pending_space_after_colon = false;
                 if !self.ser.at_line_start {
                     self.ser.newline()?;
                 }
+                // The value of a composite key (`: `) arrives with the "stay on this line" hint
+                // set; the line has just been ended, so the first dash is indented like the rest.
+                starts_own_line = true;
             }
             // If previous element was an inline map after a dash, just clear the flag; do not change depth.
             if !self.first && self.ser.inline_map_after_dash {
                 self.ser.inline_map_after_dash = false;
             }
-            if self.first && (!self.ser.at_line_start || self.ser.pending_inline_map) {
+            if self.first
+                && !starts_own_line
+                && (!self.ser.at_line_start || self.ser.pending_inline_map)
+            {
                 // Inline the first element of this nested sequence right after the outer dash
                 // (either we are already mid-line, or the parent staged inline via pending_inline_map).
                 // Do not write indentation here.
@@ -2392,7 +2399,16 @@ impl<'a, 'b, W: Write> SerializeMap for MapSer<'a, 'b, W> {
                 }
                 Err(Error::Unexpected { msg }) if msg == "non-scalar key" => {
                     self.ser.write_anchor_for_complex_node()?;
-                    self.ser.write_indent(self.depth)?;
+                    if self.align_after_dash && self.ser.at_line_start {
+                        let base = self.depth.saturating_sub(1);
+                        for _ in 0..self.ser.indent_step * base {
+                            self.ser.out.write_char(' ')?;
+                        }
+                        self.ser.out.write_str("  ")?; // width of "- "
+                        self.ser.at_line_start = false;
+                    } else {
+                        self.ser.write_indent(self.depth)?;
+                    }
                     self.ser.out.write_str("? ")?;
                     self.ser.at_line_start = false;
 
@@ -2467,7 +2483,12 @@ impl<'a, 'b, W: Write> SerializeMap for MapSer<'a, 'b, W> {
                 }
                 self.ser.out.write_str(":")?;
                 self.ser.pending_space_after_colon = true;
-                self.ser.pending_inline_map = true;
+                // `: a: 1` keeps the first entry of a mapping value on this line; the following
+                // entries are written one indentation step deeper, which is two columns right
+                // of the `:` (where they have to be) only for a step of 2. Otherwise the value
+                // starts on its own line, as it does after an ordinary `key:`.
+                self.ser.pending_inline_map =
+                    self.ser.indent_step == 2 && !self.ser.compact_list_indent;
                 self.ser.at_line_start = false;
                 self.ser.depth = self.depth;
             }
